@@ -82,3 +82,36 @@ UNTERMINATED = [
     "f'{a!}'", "f'{a!x}'", "f'{!r}'", "f'{}'", "f'{a:{}}'", "f'{a:{b:{c}}}'", "'a' b'b'", "$(echo r'x'b'y')", "$(echo a.b?)", "x = 1e", "x = 0x", "x = 1_", "x = 0b2", "x = 09", "x = 1__0", "x = 1.e", "x = 1jj",
     "\r", "a\rb", "a\r\nb\r", "\0", "a\0b", "\ufeffx = 1\n", "\f", "\x0c\x0c x", "x\n\x0c", "é", "x = é€", "x = '€' €", "def é(): pass", "x\u00a0=\u00a01", "x = 1\u2028y = 2",
 ]
+
+
+def bracket_newlines(rnd, s, k=None):
+    """layout mutant for xonsh text: newline + indentation right after an opening bracket or a comma (outside quotes, heuristically)"""
+    spots = []
+    quote = None
+    i = 0
+    while i < len(s):
+        ch = s[i]
+        if quote:
+            if ch == "\\":
+                i += 2
+                continue
+            if s.startswith(quote, i):
+                i += len(quote)
+                quote = None
+                continue
+        elif ch in "'\"":
+            quote = s[i : i + 3] if s[i : i + 3] in ("'''", '"""') else ch
+            i += len(quote)
+            continue
+        elif ch == "#":
+            j = s.find("\n", i)
+            i = len(s) if j < 0 else j
+            continue
+        elif ch in "([{,":
+            spots.append(i + 1)
+        i += 1
+    if not spots:
+        return None
+    for pos in sorted(rnd.sample(spots, min(len(spots), k or rnd.randint(1, 3))), reverse=True):
+        s = s[:pos] + "\n" + " " * rnd.choice([0, 1, 2, 4, 7, 12]) + s[pos:]
+    return s
